@@ -58,6 +58,7 @@ CLASSES = {
     "image-non-utf8": "src/glyph/serialize.rs|impl Image::to_event|expect|",
     "entry-remove": "src/layer.rs|impl Layer::save_with_options|expect|",
     "layer-slot-assign": "src/layer.rs|impl LayerContents::default_layer",
+    "ds-doctype-in-text": "outside-norad:quick-xml-",
 }
 DEPTH_CLASS = 512       # must equal DEPTH_CLASS of harness/src/c03_gen.rs
 NEST_KINDS = ["glif-lib-array", "glif-lib-dict", "glif-elements", "api-lib-encode", "designspace-lib",
@@ -93,9 +94,14 @@ def anchors(ctx):
 
 def site_of(inv, loc):
     """map a panic location '<repo>/src/x.rs:LINE' to a site key of the inventory"""
-    m = re.search(r"(src/[\w/]+\.rs):(\d+)$", loc or "")
+    import driver
+    loc = loc or "?"
+    root = os.path.realpath(driver.REPO) + "/"
+    if "/registry/src/" in loc or "/rustc/" in loc or not (loc.startswith(root) or loc.startswith(driver.REPO.rstrip("/") + "/") or loc.startswith("src/")):
+        return "outside-norad:" + re.sub(r"^.*/registry/src/[^/]+/", "", loc)
+    m = re.search(r"(src/[\w/]+\.rs):(\d+)$", loc)
     if not m:
-        return "outside-norad:" + (re.sub(r"^.*/registry/src/[^/]+/", "", loc or "?"))
+        return "outside-norad:" + loc
     rel, line = m.group(1), int(m.group(2))
     best = None
     for k, ln, kind in inv:
@@ -134,60 +140,8 @@ def nest_probe(ctx, sh, out, kind, depth):
     return rc, recs, o
 
 
-def run(ctx, known, built):
-    import driver
-    from driver import sh
-    known_ids = {k["id"] for k in known}
-    inv = getattr(ctx, "c03_inventory", None)
-    if inv is None:
-        inv = _inventory().inventory(driver.REPO)
-    out = os.path.join(ctx.scratch, "c03")
-    os.makedirs(out)
-    hits = {}
-    nviol0 = len(ctx.violations)
-
-    def handle(rec, origin):
-        fid, site, cls = classify(rec, inv, known_ids)
-        if fid:
-            hits[fid] = hits.get(fid, 0) + 1
-            return
-        v = {"what": "panic in a public entry point", "entry": rec.get("entry"), "panic_message": rec.get("msg"),
-             "panic_location": rec.get("loc"), "site": site, "input_class_tags": rec.get("tags"),
-             "class_matched_but_not_listed_in_known_findings": cls, "origin": origin,
-             "stream": rec.get("stream"), "idx": rec.get("idx"), "generator_seed": ctx.seed,
-             "input": rec.get("input"), "demand": "a value or an error value; no panic outside the three documented ones"}
-        ctx.violations.append(v)
-
-    # ---- 1. committed corpus (witnesses of the known classes, past failures): runs first
-    corpus = os.path.join(driver.VERIF, "corpus", "C03")
-    ncorpus = 0
-    stale = []
-    man = os.path.join(corpus, "manifest.json")
-    if os.path.exists(man):
-        for e in json.load(open(man)):
-            ncorpus += 1
-            if e.get("witness"):
-                rc, o = sh([ctx.harness, "c03", "--out", out, "witness", e["witness"]], timeout=300)
-                recs = [json.loads(l) for l in o.split("\n") if l.startswith("{")]
-            else:
-                rc, recs, head, o = run_file(ctx, sh, out, os.path.join(corpus, e["path"]), e.get("tags", []))
-            if rc != 0:
-                ctx.violations.append({"what": "abort / crash on a corpus input", "corpus": e, "exit": rc, "output": o[-600:]})
-            for r in recs:
-                handle(r, {"corpus": e})
-            if e.get("finding") and not any(classify(r, inv, set(CLASSES))[0] == e["finding"] for r in recs):
-                stale.append(e["finding"])
-    # ---- 2. generated streams (workers under catch_unwind + watchdog; master restarts after abort / hang)
-    env = {"C03_WORKERS": str(min(8, driver.NPROC))}
-    rc, o = sh([ctx.harness, "c03", "--tier", ctx.tier, "--seed", str(ctx.seed), "--out", out, "run"], timeout=6000, env=env)
-    if rc != 0 or "MASTER done" not in o:
-        ctx.disagreements.append({"what": "harness c03 run failed", "rc": rc, "output": o[-1500:]})
-    tot = {"cases": 0, "calls": 0, "ok": 0, "err": 0, "documented_panics": 0, "panics": 0, "deep": 0}
-    entries = {}
-    tags = {}
-    per_stream = {}
-    nhang = nabort = 0
-    samples = []
+def collect(ctx, out, inv, handle, tot, entries, tags, per_stream, counters, samples):
+    """read the result files of one master run"""
     for f in sorted(os.listdir(out)):
         if not (f.startswith("res_") and f.endswith(".jsonl")):
             continue
@@ -216,28 +170,120 @@ def run(ctx, known, built):
                     samples.append({"stream": rec["stream"], "idx": rec["idx"], "entry": rec["entry"], "site": site_of(inv, rec.get("loc")),
                                     "tags": rec.get("tags"), "input": (rec.get("input") or "")[:300]})
             elif k == "hang":
-                nhang += 1
+                counters["hang"] += 1
                 ctx.violations.append({"what": "hang: one case ran longer than the watchdog limit", "stream": rec.get("stream"),
-                                       "idx": rec.get("idx"), "limit_ms": rec.get("limit_ms"), "generator_seed": ctx.seed,
+                                       "idx": rec.get("idx"), "limit_ms": rec.get("limit_ms"), "generator_seed": handle.seed,
                                        "demand": "every call terminates"})
             elif k == "abort":
-                nabort += 1
+                counters["abort"] += 1
                 ctx.violations.append({"what": "abort: the worker process died (signal / non-unwinding panic) in this case",
                                        "stream": rec.get("stream"), "idx": rec.get("idx"), "signal": rec.get("signal"),
-                                       "exit_code": rec.get("exit_code"), "generator_seed": ctx.seed,
+                                       "exit_code": rec.get("exit_code"), "generator_seed": handle.seed,
                                        "demand": "no abort (inputs of the generated streams nest at most %d deep)" % DEPTH_CLASS})
             elif k == "restart":
                 tot["cases"] += max(0, rec.get("stopped_at", 0) - rec.get("from", 0))
+
+
+def shrink_api(ctx, sh, out, v, inv):
+    """greedy removal of operations of a failing API history (the harness discards the effects of
+    the operations listed in C03_SKIP while keeping the random stream of the others)"""
+    skips = []
+    last = None
+    for i in range(25):
+        trial = skips + [i]
+        rc, o = sh([ctx.harness, "c03", "--seed", str(v["generator_seed"]), "--out", out, "one", "api", str(v["idx"])],
+                   timeout=120, env={"C03_SKIP": ",".join(map(str, trial))})
+        recs = [json.loads(l) for l in o.split("\n") if l.startswith("{")]
+        hit = [r for r in recs if site_of(inv, r.get("loc")) == v["site"] and r.get("tags") == v["input_class_tags"]]
+        if hit:
+            skips = trial
+            last = hit[0]
+    if last is not None:
+        v["skipped_operations"] = skips
+        v["shrunk_history"] = last.get("input")
+        v["shrunk_entry"] = last.get("entry")
+
+
+def run(ctx, known, built):
+    import driver
+    from driver import sh
+    known_ids = {k["id"] for k in known}
+    inv = getattr(ctx, "c03_inventory", None)
+    if inv is None:
+        inv = _inventory().inventory(driver.REPO)
+    out = os.path.join(ctx.scratch, "c03")
+    os.makedirs(out)
+    hits = {}
+    nviol0 = len(ctx.violations)
+
+    def handle(rec, origin):
+        fid, site, cls = classify(rec, inv, known_ids)
+        if fid:
+            hits[fid] = hits.get(fid, 0) + 1
+            return
+        v = {"what": "panic in a public entry point", "entry": rec.get("entry"), "panic_message": rec.get("msg"),
+             "panic_location": rec.get("loc"), "site": site, "input_class_tags": rec.get("tags"),
+             "class_matched_but_not_listed_in_known_findings": cls, "origin": origin,
+             "stream": rec.get("stream"), "idx": rec.get("idx"), "generator_seed": handle.seed,
+             "input": rec.get("input"), "demand": "a value or an error value; no panic outside the three documented ones"}
+        ctx.violations.append(v)
+    handle.seed = ctx.seed
+
+    # ---- 1. committed corpus (witnesses of the known classes, past failures): runs first
+    corpus = os.path.join(driver.VERIF, "corpus", "C03")
+    ncorpus = 0
+    stale = []
+    man = os.path.join(corpus, "manifest.json")
+    if os.path.exists(man):
+        for e in json.load(open(man)):
+            ncorpus += 1
+            if e.get("witness"):
+                rc, o = sh([ctx.harness, "c03", "--out", out, "witness", e["witness"]], timeout=300)
+                recs = [json.loads(l) for l in o.split("\n") if l.startswith("{")]
+            else:
+                rc, recs, head, o = run_file(ctx, sh, out, os.path.join(corpus, e["path"]), e.get("tags", []))
+            if rc != 0:
+                ctx.violations.append({"what": "abort / crash on a corpus input", "corpus": e, "exit": rc, "output": o[-600:]})
+            for r in recs:
+                handle(r, {"corpus": e})
+            if e.get("finding") and not any(classify(r, inv, set(CLASSES))[0] == e["finding"] for r in recs):
+                stale.append(e["finding"])
+    tot = {"cases": 0, "calls": 0, "ok": 0, "err": 0, "documented_panics": 0, "panics": 0, "deep": 0}
+    entries = {}
+    tags = {}
+    per_stream = {}
+    counters = {"hang": 0, "abort": 0}
+    samples = []
+    out_hash_dirs = [out]
+    # ---- 2. generated streams (workers under catch_unwind + watchdog; master restarts after abort / hang)
+    env = {"C03_WORKERS": str(min(8, driver.NPROC))}
+    rc, o = sh([ctx.harness, "c03", "--tier", ctx.tier, "--seed", str(ctx.seed), "--out", out, "run"], timeout=6000, env=env)
+    if rc != 0 or "MASTER done" not in o:
+        ctx.disagreements.append({"what": "harness c03 run failed", "rc": rc, "output": o[-1500:]})
+    collect(ctx, out, inv, handle, tot, entries, tags, per_stream, counters, samples)
+    extended = False
+    if (ctx.anchor_failures or ctx.proof_failures) and len(ctx.violations) == nviol0 and not ctx.thorough():
+        # the tie is broken and the quick search found no input: search harder (other seed, ~8x the volume)
+        extended = True
+        out2 = os.path.join(ctx.scratch, "c03x")
+        os.makedirs(out2)
+        ctx.note("anchor / proof obligation broken and no failing input yet: extended search")
+        rc, o = sh([ctx.harness, "c03", "--tier", "extended", "--seed", str(ctx.seed + 7919), "--out", out2, "run"], timeout=6000, env=env)
+        handle.seed = ctx.seed + 7919
+        collect(ctx, out2, inv, handle, tot, entries, tags, per_stream, counters, samples)
+        handle.seed = ctx.seed
+        out_hash_dirs.append(out2)
     distinct = set()
     distinct_deep = set()
-    for f in os.listdir(out):
-        if f.startswith("hash_"):
-            for line in open(os.path.join(out, f)):
-                p = line.split()
-                if len(p) == 2:
-                    distinct.add(p[0])
-                    if p[1] == "1":
-                        distinct_deep.add(p[0])
+    for hd in out_hash_dirs:
+        for f in os.listdir(hd):
+            if f.startswith("hash_"):
+                for line in open(os.path.join(hd, f)):
+                    p = line.split()
+                    if len(p) == 2:
+                        distinct.add(p[0])
+                        if p[1] == "1":
+                            distinct_deep.add(p[0])
     # ---- 3. deep nesting, every probe in its own child process
     jobs = [(k, d) for k in NEST_KINDS for d in NEST_DEPTHS]
     nest = {}
@@ -280,6 +326,17 @@ def run(ctx, known, built):
                 "survives %d; aborts or needs more than %d s at %d" % (th[0], PROBE_TIMEOUT * (4 if ctx.thorough() else 1), th[1])
             if th is not None and th[1] <= DEPTH_CLASS:
                 ctx.violations.append({"what": "abort on nesting depth <= %d" % DEPTH_CLASS, "nesting_kind": kind, "depth": th[1]})
+    # shrink the first API-history violations, put the smallest first
+    shr = [v for v in ctx.violations[nviol0:] if v.get("stream") == "api" and v.get("origin") == "generated"][:3]
+    for v in shr:
+        try:
+            shrink_api(ctx, sh, out, v, inv)
+        except Exception as ex:      # shrinking is a convenience; never hide the violation
+            v["shrink_error"] = repr(ex)
+    if shr:
+        best = min(shr, key=lambda v: len(v.get("shrunk_history") or v.get("input") or ""))
+        ctx.violations.remove(best)
+        ctx.violations.insert(0, best)
     for fid, n in hits.items():
         ctx.known_hits[fid] = ctx.known_hits.get(fid, 0) + n
     ctx.obligation("search:C03 no panic / abort / hang outside the documented panics and the listed classes "
@@ -300,7 +357,7 @@ def run(ctx, known, built):
         "exploration_part": "byte-level totality is SEARCHED, not proved",
         "guarded_calls": tot["calls"], "calls_returning_value": tot["ok"], "calls_returning_error": tot["err"],
         "documented_panics_observed": tot["documented_panics"], "panic_records": tot["panics"],
-        "hangs": nhang, "aborts_in_streams": nabort,
+        "hangs": counters["hang"], "aborts_in_streams": counters["abort"], "extended_search_ran": extended,
         "distinct_inputs": len(distinct), "cases_per_stream": per_stream, "corpus_inputs": ncorpus,
         "calls_per_entry_point[value,error,panic,documented]": entries,
         "input_class_tags": tags,
@@ -348,7 +405,8 @@ def replay(ctx, path):
         return 1 if (recs or rc != 0) else 0
     if inp.get("stream") is not None and inp.get("idx") is not None:
         seed = inp.get("generator_seed", d.get("seed", 1))
-        rc, o = sh([ctx.harness, "c03", "--seed", str(seed), "--out", out, "one", inp["stream"], str(inp["idx"])], timeout=600)
+        env = {"C03_SKIP": ",".join(map(str, inp["skipped_operations"]))} if inp.get("skipped_operations") else None
+        rc, o = sh([ctx.harness, "c03", "--seed", str(seed), "--out", out, "one", inp["stream"], str(inp["idx"])], timeout=600, env=env)
         print(o[-6000:])
         idir = os.path.join(out, "input")
         if os.path.isdir(idir):
